@@ -514,6 +514,10 @@ def background_fill(P, rep, rule="EXPR.background"):
     from . import layout
     F = P.func("WorldBuilder::World::properties", ptypes=["array<double, 3>"])
     sw = layout.find_switch_on_kind(P, F)[0]
+    lam = astq.local_lambda_calls(P, F, sw)
+    if lam:
+        rep.unknown(rule, "the fill switch does part of its work through the local lambda `%s`; this rule reads the statements of the cases only" % lam[0][1])
+        return
     cases = astq.switch_cases(sw)
     depth_k = F.params[1]
     Tp, al, cp, g, d = sp.symbols("Tp alpha cp g depth")
